@@ -19,7 +19,8 @@ BOXES = ("mixed", "mixed", "boxed", "narrow", "narrow", "lower", "upper", "boxed
 
 
 def floors(tier):
-    return {"runs": 500, "points_checked": 5000, "evaluations_with_component_on_bound": 1500, "fd_runs": 150, "runs_with_bounds_object_edited_in_place": 60, "__nontrivial__": 200}
+    return {"runs": 500, "points_checked": 5000, "evaluations_with_component_on_bound": 1500, "fd_runs": 150, "runs_with_bounds_object_edited_in_place": 60, "runs_with_nested_run": 60, "nested_runs": 100,
+            "runs_with_low_precision_start": 80, "__nontrivial__": 200}
 
 
 def cases(tier, seed):
@@ -32,7 +33,18 @@ def cases(tier, seed):
         cfg["eps"] = float(gen.pick(rng, [1e-8, 1e-6]))
         cfg["finite_diff_rel_step"] = gen.pick(rng, [None, None, 1e-7])
         cfg["cb"] = "never"
-        yield {"problem": ps, "cfg": cfg, "edit_bounds": bool(i % 6 == 0)}
+        if i % 8 == 3:
+            cfg["x0_dtype"] = str(gen.pick(rng, ["float32", "float32", "float16"]))  # a start vector of lower precision
+        spec = {"problem": ps, "cfg": cfg, "edit_bounds": bool(i % 6 == 0)}
+        if i % 10 == 7:
+            # another optimisation (same n, another box, finite differences) runs nested inside the objective
+            spec["nested"] = {"problem": gen.rand_spec(rng, ("qp", "sphere", "quartic"), nmax=8, boxes=("none", "mixed", "lower", "upper", "boxed"),
+                                                       starts=("interior", "face")),
+                              "jac": gen.pick(rng, [None, "2-point", "3-point"]), "at": [0, int(rng.integers(1, 6)), int(rng.integers(6, 30))]}
+            spec["nested"]["problem"]["n"] = ps["n"]
+            if cfg["jac"] in ("callable", "cs"):
+                cfg["jac"] = gen.pick(rng, [None, "2-point", "3-point"])
+        yield spec
 
 
 def run(spec):
@@ -41,8 +53,25 @@ def run(spec):
     cfg = dict(spec["cfg"])
     if cfg["jac"] == "cs" and not e2e.cs_capable(P):
         cfg["jac"] = "3-point"
-    tr = probes.run_min(P, cfg)
+    hooks = {}
     tags = dict(family=P.spec["family"], mode=str(cfg["jac"]))
+    if spec.get("nested"):
+        Q = gen.make_problem(spec["nested"]["problem"])
+        qcfg = dict(jac=spec["nested"]["jac"], maxcor=3, maxiter=3, maxfun=200, cb="never")
+
+        def on_f(i, x):
+            if i in spec["nested"]["at"] and not out.violations:
+                inner = probes.run_min(Q, qcfg)
+                out.count("nested_runs")
+                e2e.mon_box(out, Q, inner, qcfg["jac"], dict(tags, phase="run_nested_inside_the_objective"))
+
+        hooks["on_f"] = on_f
+    tr = probes.run_min(P, cfg, hooks=hooks)
+    if spec.get("nested"):
+        tags = dict(tags, phase="outer_run_with_a_nested_run_inside_its_objective")
+        out.count("runs_with_nested_run")
+    if cfg.get("x0_dtype"):
+        out.count("runs_with_low_precision_start")
     nb = e2e.mon_box(out, P, tr, cfg["jac"], tags)
     out.count("runs")
     if cfg["jac"] != "callable":
